@@ -37,6 +37,8 @@ const c19Policy = `
 path "rec/lease/*" { capabilities = ["read"] }
 path "rec/data/*" { capabilities = ["read", "update", "create"] }
 path "auth/token/create" { capabilities = ["update"] }
+path "auth/token/create-orphan" { capabilities = ["update", "sudo"] }
+path "auth/token/create/c19orphan" { capabilities = ["update"] }
 path "sys/wrapping/rewrap" { capabilities = ["update"] }
 `
 
@@ -60,7 +62,10 @@ func c19Issue(c *Core, kind, tok string, k int) string {
 	case "recread":
 		cl, resp = vhReq(c, logical.ReadOperation, "rec/data/a", tok, nil)
 	case "create":
-		cl, resp = vhReq(c, logical.UpdateOperation, "auth/token/create", tok, map[string]any{"policies": []string{"default"}, "ttl": "10m"})
+		// the three entry points of handleCreateCommon (the guard "use-limited tokens cannot create tokens" is theirs):
+		// plain create, create-orphan, and a role that makes orphans — the latter two never look the parent up again
+		path := []string{"auth/token/create", "auth/token/create-orphan", "auth/token/create/c19orphan"}[k%3]
+		cl, resp = vhReq(c, logical.UpdateOperation, path, tok, map[string]any{"policies": []string{"default"}, "ttl": "10m"})
 		if cl == "ok" && resp != nil && resp.Auth != nil && resp.Auth.ClientToken != "" {
 			cl = "ok+child"
 		}
@@ -234,6 +239,9 @@ func c19Setup(t *testing.T) (*vhPhys, *Core, string, *vhRecBackend) {
 	var rec *vhRecBackend
 	c, _, root := vhNewCore(t, p, &rec, nil)
 	vhMount(t, c, root, "rec/")
+	if cl, _ := vhReq(c, logical.UpdateOperation, "auth/token/roles/c19orphan", root, map[string]any{"orphan": true}); cl != "ok" {
+		t.Fatal("role c19orphan", cl)
+	}
 	if cl, _ := vhReq(c, logical.UpdateOperation, "sys/policies/acl/c19", root, map[string]any{"policy": c19Policy}); cl != "ok" {
 		t.Fatalf("policy write: %s", cl)
 	}
